@@ -15,6 +15,7 @@ RULE = ("random environments of 0..20 variables (names over [A-Za-z0-9_] incl. l
         "and `env` inside functions and modules still mean what they say. distinct = distinct (environment, program); "
         "non-trivial = >= 2 variables or a failing run with planted secrets.")
 RULE += (" " + 'Also: in 20 % of the runs an unrelated variable whose value is not valid UTF-8 (a run that dies while reading set variables is a violation); values of 70,000 and 100,000 characters.')
+RULE += (" " + '60 % of the unset names are near misses of a variable that is set, mostly one that carries a secret (other case, one character more, less or different).')
 
 NAME_POOL = ["A", "B", "HOME", "PATH_X", "x", "lower_case", "MiXed", "_LEAD", "__", "A1", "A_B_C", "Z9_", "LONG_" + "N" * 40, "env", "self", "let",
              "NULL", "true", "mod", "item", "in", "SECRET_TOKEN", "DB_PASSWORD", "a"]
